@@ -1052,7 +1052,7 @@ type gtCfg struct {
 	suffix    string         // ... under the name src_<pkg>_<name>_<suffix>
 	fuel      map[int]string // loop number (source order, from 1) -> Go expression over what is in scope at the loop: iterations + 1 at most
 	ignore    []string       // calls (as statements) of these package functions are skipped: hooks without a body in the build under check
-	litsOf []string // fragment: the constant string arguments of every call of a method with one of these names, in source order (a list)
+	litsOf    []string       // fragment: the constant string arguments of every call of a method with one of these names, in source order (a list)
 }
 
 type gtState struct {
